@@ -35,9 +35,13 @@ import (
 func init() { generators = append(generators, genSqlPrec) }
 
 type yAlt struct {
-	syms   []string // right-hand side symbols ('x' tokens keep their quotes)
-	prec   string   // %prec token or ""
-	action string   // text of the last action block
+	syms     []string // right-hand side symbols ('x' tokens keep their quotes)
+	prec     string   // %prec token or ""
+	action   string   // text of the last action block
+	nActions int      // number of action blocks (> 1: a mid-rule action, which shifts the $n numbering)
+	midRule  bool     // the alternative had a mid-rule action (now the hidden symbol `$$n` on its right-hand side)
+	seq      int      // number of the production in the file, from 1 (goyacc's `case N` of the generated parser)
+	rule     string   // left-hand side
 }
 
 type yGrammar struct {
@@ -173,11 +177,29 @@ func parseYacc(src string) (*yGrammar, error) {
 	}
 	cur := ""
 	var alt *yAlt
+	seq := 0
 	flush := func() {
 		if cur != "" && alt != nil {
+			seq++
+			alt.seq, alt.rule = seq, cur
 			g.rules[cur] = append(g.rules[cur], *alt)
 		}
 		alt = nil
+	}
+	// a mid-rule action (an action followed by further symbols): yacc turns it into a hidden non-terminal `$$n` with one
+	// empty alternative carrying the action; the hidden production takes the number the enclosing one would have had
+	hidden := 0
+	midRule := func() {
+		if alt == nil || alt.nActions == 0 {
+			return
+		}
+		hidden++
+		name := fmt.Sprintf("$$%d", hidden)
+		seq++
+		g.rules[name] = []yAlt{{action: alt.action, nActions: 1, seq: seq, rule: name}}
+		g.order = append(g.order, name)
+		alt.syms = append(alt.syms, name)
+		alt.action, alt.nActions, alt.midRule = "", 0, true
 	}
 	for k := 0; k < len(toks); k++ {
 		t := toks[k]
@@ -196,11 +218,13 @@ func parseYacc(src string) (*yGrammar, error) {
 			if alt == nil {
 				return nil, fmt.Errorf("symbol %s outside a rule", t.text)
 			}
+			midRule()
 			alt.syms = append(alt.syms, t.text)
 		case "chr":
 			if alt == nil {
 				return nil, fmt.Errorf("token %s outside a rule", t.text)
 			}
+			midRule()
 			alt.syms = append(alt.syms, t.text)
 		case "bar":
 			flush()
@@ -218,6 +242,7 @@ func parseYacc(src string) (*yGrammar, error) {
 				return nil, fmt.Errorf("action outside a rule")
 			}
 			alt.action = t.text
+			alt.nActions++
 		}
 	}
 	flush()
